@@ -908,6 +908,10 @@ func (vc *VC) evalCall(e *SExpr, env *Env) *Val {
 			return &Val{T: fmt.Sprintf("(i_tag %s)", x.T), Ty: MathInt}
 		case "ref":
 			x := vc.eval(args[0], env)
+			if x.Ty != nil && vc.sortOf(x.Ty) == "Int" {
+				// a pointer is its own reference
+				return &Val{T: x.T, Ty: MathInt}
+			}
 			return &Val{T: fmt.Sprintf("(i_ref %s)", x.T), Ty: MathInt}
 		case "int", "mathint":
 			x := vc.eval(args[0], env)
